@@ -56,7 +56,12 @@ class Multicast:
         entry.endpoint = t.uint8_t(1)
         entry.multicastId = t.EmberMulticastId(group_id)
         entry.networkIndex = t.uint8_t(0)
-        status = await self._ezsp.setMulticastTableEntry(idx, entry)
+        try:
+            status = await self._ezsp.setMulticastTableEntry(idx, entry)
+        except Exception:
+            # The table write did not complete: the slot is still unused
+            self._available.add(idx)
+            raise
         if t.sl_Status.from_ember_status(status[0]) != t.sl_Status.OK:
             LOGGER.warning(
                 "Set MulticastTableEntry #%s for %s multicast id: %s",
